@@ -4,8 +4,8 @@
    Reading of the property (DESIGN.md section 6, C20):
    - master = a root process started normally ([root_master]: real and effective uid 0, one gid in the
      three gid slots; saved uid and supplementary groups arbitrary);
-   - "a user and a group are configured" = the ids handed to set_owner_process are both non-zero
-     (an unconfigured one defaults to the master's effective id, i.e. 0);
+   - "a user is configured" = the uid handed to set_owner_process is non-zero (an unconfigured id
+     defaults to the master's effective id, i.e. 0); the group id may be anything, 0 included;
    - the kernel's credential rules are modelled (trusted, validated on /proc/<pid>/status of real
      processes by the correspondence run). *)
 From Coq Require Import List NArith ZArith Bool.
@@ -17,7 +17,7 @@ Local Open Scope Z_scope.
    ones; with initgroups the supplementary set becomes exactly the user's groups plus the gid,
    without it (or for a uid without a passwd entry) the set is left alone. *)
 Theorem C20_worker_identity : forall db c0 uid gid ig,
-    root_master c0 -> uid <> 0 -> gid <> 0 ->
+    root_master c0 -> uid <> 0 ->
     set_owner_process db uid gid ig c0 = Done (target db uid gid ig c0).
 Proof. exact worker_identity. Qed.
 Print Assumptions C20_worker_identity.
@@ -105,28 +105,20 @@ Theorem C20_spelling_group : forall db m n g,
 Proof. exact spelling_agree_group. Qed.
 Print Assumptions C20_spelling_user.
 
-(* (6) Outside the premise "user AND group configured": what the code does there (each is replayed
-   on the real code by the check; the first and third are reported as findings). *)
-Theorem C20_gid0_skips_initgroups_refuted : forall db c0 uid ig,     (* -u U --initgroups, or -g root *)
-    root_master c0 -> uid <> 0 ->
-    set_owner_process db uid 0 ig c0 = Done (with_uids c0 uid uid uid).
-Proof. exact gid0_skips_initgroups. Qed.
-Theorem C20_unknown_uid_skips_initgroups : forall db c0 uid gid,     (* numeric uid without passwd entry *)
-    root_master c0 -> uid <> 0 -> gid <> 0 -> pw_uid_name db uid = None ->
-    set_owner_process db uid gid true c0 = Done (mk uid uid uid gid gid gid (groups c0)).
-Proof. exact unknown_uid_skips_initgroups. Qed.
-Theorem C20_group_only_initgroups_raises : forall db c0 gid,         (* -g G --initgroups as root *)
-    gid <> 0 -> set_owner_process db 0 gid true c0 = Raised UnboundLocalError c0.
-Proof. exact group_only_initgroups_raises. Qed.
-Theorem C20_group_only : forall db c0 gid,
-    root_master c0 -> gid <> 0 -> set_owner_process db 0 gid false c0 = Done (with_gids c0 gid gid gid).
+(* (6) Only a group configured (the worker stays root), and why root_master asks for ruid = 0. *)
+Theorem C20_group_only : forall db c0 gid ig,
+    root_master c0 ->
+    set_owner_process db 0 gid ig c0 =
+    Done (with_gids (if ig then with_groups c0 (match pw_uid_name db 0 with
+                                                | Some n => getgrouplist db n gid
+                                                | None => [gid] end)
+                     else c0) gid gid gid).
 Proof. exact group_only. Qed.
-Theorem C20_setuid_launcher_keeps_root : forall db uid gid c0,       (* why root_master asks for ruid = 0 *)
+Theorem C20_setuid_launcher_keeps_root : forall db uid gid c0,
     uid <> 0 -> ruid c0 = uid -> euid c0 = 0 ->
     forall c, set_owner_process db uid gid false c0 = Done c -> euid c = 0.
 Proof. exact setuid_launcher_keeps_root. Qed.
-Print Assumptions C20_gid0_skips_initgroups_refuted.
-Print Assumptions C20_group_only_initgroups_raises.
+Print Assumptions C20_group_only.
 
 (* ---- non-vacuity ---- *)
 Definition ex_tab : dbtab :=
@@ -154,11 +146,11 @@ Example setgid_after_setuid_refused :
   match k_setuid 65534 c_root with SysOk c => k_setgid 65534 c | SysEPERM => SysEPERM end = SysEPERM.
 Proof. vm_compute. reflexivity. Qed.
 
-Example user_only_initgroups_keeps_root_groups :
-  set_owner_process ex_db 65534 0 true c_root = Done (mk 65534 65534 65534 0 0 0 [0; 4; 27]).
+Example user_only_initgroups :
+  set_owner_process ex_db 65534 0 true c_root = Done (mk 65534 65534 65534 0 0 0 [0; 4; 24]).
 Proof. vm_compute. reflexivity. Qed.
 Example group_only_initgroups_example :
-  set_owner_process ex_db 0 65534 true c_root = Raised UnboundLocalError c_root.
+  set_owner_process ex_db 0 65534 true c_root = Done (mk 0 0 0 65534 65534 65534 [65534]).
 Proof. vm_compute. reflexivity. Qed.
 
 Definition ex_cfg : cfg := {| c_uid := 65534; c_gid := 65534; c_ig := true; c_umask := 0; c_reload := false; c_workers := 2 |}.
@@ -166,7 +158,7 @@ Definition ex_cfg2 : cfg := {| c_uid := 33; c_gid := 33; c_ig := false; c_umask 
 Definition ex_hist : list sevent := [SKillWorker 1; SHup 0 ex_cfg2; SUsr2 0 ex_cfg2; STtin 0; SKillWorker 6; STerm 0].
 
 Example history_hypotheses : good_cfg ex_cfg /\ Forall good_ev ex_hist.
-Proof. split; [split; discriminate|]. repeat constructor; discriminate. Qed.
+Proof. split; [discriminate|]. repeat constructor; discriminate. Qed.
 
 (* the history really creates workers of every kind, and each of them ran application code *)
 Example history_generations :
